@@ -27,6 +27,10 @@ if os.path.realpath(REPO) != "/repo":
     REPLAYS = COQ + "-replays"
 PY = "/venv/bin/python"
 COQ_DIRS = ["lib", "spec", "model", "gen", "proofs", "props"]
+# coq/gen holds only regenerated (git-ignored) files: it does not exist in a tree restored from the commit alone
+os.makedirs(os.path.join(COQ, "gen"), exist_ok=True)
+for _d in (EVID, REPLAYS):
+    os.makedirs(_d, exist_ok=True)
 QFLAGS = []
 for _d in COQ_DIRS:
     QFLAGS += ["-Q", _d, "PyOrb." + _d]
